@@ -2,7 +2,7 @@ use std::collections::{HashMap, HashSet};
 use std::fmt;
 use std::hash::{Hash, Hasher};
 
-use anyhow::Error;
+use anyhow::{anyhow, Error};
 use camino::{Utf8Path, Utf8PathBuf};
 use indexmap::{indexset, IndexMap, IndexSet};
 use serde::{Deserialize, Serialize};
@@ -170,7 +170,7 @@ impl Module {
         &'a self,
         global_env: &Env,
         resolver_result: &'a ResolverResult,
-    ) -> (Env, Option<IndexSet<&'a Module>>) {
+    ) -> Result<(Env, Option<IndexSet<&'a Module>>), Error> {
         let modules = &resolver_result.modules;
         let providers = &resolver_result.providers;
 
@@ -195,7 +195,12 @@ impl Module {
                     .or_insert_with(|| nested_env::EnvKey::List(im::vector![]));
 
                 match notify_list {
-                    nested_env::EnvKey::Single(_) => panic!("unexpected notify value"),
+                    nested_env::EnvKey::Single(_) => {
+                        return Err(anyhow!(
+                            "module \"{}\": variable \"notify\" must be a list",
+                            self.name
+                        ))
+                    }
                     nested_env::EnvKey::List(list) => list.push_back(dep.create_module_define()),
                 }
             }
@@ -221,7 +226,7 @@ impl Module {
         /* merge the module's local env */
         module_env.merge(&self.env_local);
 
-        (module_env, build_dep_modules)
+        Ok((module_env, build_dep_modules))
     }
 
     fn create_module_define(&self) -> String {
